@@ -73,12 +73,12 @@ theorem sparse_innerprodDense_spec [CommSemiring α] [DecidableEq α] (S : Spars
   unfold Sparse.innerprodDense
   have hspec : Spec.inner S.den D.den = (S.entries.map fun e => e.2 * D.get e.1).sum :=
     sparse_all_sum S.entries S.shape (entries_inb S hS) D.get
+  have : (S.shape != D.shape) = false := by simp [hs]
+  rw [this]
+  simp only [Bool.false_eq_true, if_false]
   by_cases h0 : (S.nnz == 0) = true
   · rw [if_pos h0, hspec, entries_nil_of_nnz S h0]; rfl
   · rw [if_neg h0]
-    have : (S.shape != D.shape) = false := by simp [hs]
-    rw [this]
-    simp only [Bool.false_eq_true, if_false]
     rw [hspec]
     congr 2
     apply List.map_congr_left
@@ -99,12 +99,12 @@ theorem sparse_innerprodSparse_spec [CommSemiring α] [DecidableEq α] (S O : Sp
     apply sum_congr
     intro k _
     exact mul_comm _ _
+  have : (S.shape != O.shape) = false := by simp [hs]
+  rw [this]
+  simp only [Bool.false_eq_true, if_false]
   by_cases h0 : (S.nnz == 0) = true
   · rw [if_pos h0, hspec, entries_nil_of_nnz S h0]; rfl
   · rw [if_neg h0]
-    have : (S.shape != O.shape) = false := by simp [hs]
-    rw [this]
-    simp only [Bool.false_eq_true, if_false]
     by_cases h1 : (O.nnz == 0) = true
     · rw [if_pos h1, hspec', entries_nil_of_nnz O h1]; rfl
     · rw [if_neg h1]
